@@ -17,3 +17,187 @@ Definition table_of_kind (k : dtab_kind) : list (Z * string) :=
   end.
 Definition spec_dtab (machine osabi : Z) : list (Z * string) :=
   table_of_kind (spec_dtab_kind machine osabi).
+
+(* ---------- a name of a decoding dict stands for exactly one number ---------- *)
+Definition name_is (T : list (Z * string)) (val : Z) (name : string) : Prop :=
+  forall v, is_name (dec_enum T v) name = (v =? val).
+Definition name_absent (T : list (Z * string)) (name : string) : Prop :=
+  forall v, is_name (dec_enum T v) name = false.
+
+Definition name_okb (T : list (Z * string)) (p : Z * string) : bool :=
+  match dict_get T (fst p) with Some n => (n =? snd p)%string | None => false end &&
+  forallb (fun kn => negb (snd kn =? snd p)%string || (fst kn =? fst p)) T.
+Definition name_absentb (T : list (Z * string)) (name : string) : bool :=
+  forallb (fun kn => negb (snd kn =? name)%string) T.
+
+Lemma dict_get_in T : forall v n, dict_get T v = Some n -> In (v, n) T.
+Proof.
+  induction T as [|[k x] T IH]; intros v n H; cbn [dict_get] in H; [discriminate|].
+  destruct (Z.eqb_spec k v) as [->|Hne].
+  - inversion H; subst. left; reflexivity.
+  - right. apply IH. exact H.
+Qed.
+
+Lemma name_okb_sound T val name : name_okb T (val, name) = true -> name_is T val name.
+Proof.
+  unfold name_okb, name_is. cbn [fst snd]. intros H v.
+  apply andb_prop in H. destruct H as [Hget Hall].
+  destruct (dict_get T val) as [n0|] eqn:E0; [|discriminate].
+  apply String.eqb_eq in Hget. subst n0.
+  unfold dec_enum. destruct (dict_get T v) as [n|] eqn:E; cbn [is_name].
+  - destruct (String.eqb_spec n name) as [->|Hn].
+    + apply dict_get_in in E. rewrite forallb_forall in Hall. specialize (Hall _ E).
+      cbn [fst snd] in Hall. rewrite String.eqb_refl in Hall. cbn in Hall. symmetry. exact Hall.
+    + destruct (Z.eqb_spec v val) as [->|Hv]; [|reflexivity].
+      rewrite E0 in E. inversion E. congruence.
+  - destruct (Z.eqb_spec v val) as [->|Hv]; [|reflexivity]. congruence.
+Qed.
+
+Lemma name_absentb_sound T name : name_absentb T name = true -> name_absent T name.
+Proof.
+  unfold name_absentb, name_absent. intros H v. unfold dec_enum.
+  destruct (dict_get T v) as [n|] eqn:E; cbn [is_name]; [|reflexivity].
+  apply dict_get_in in E. rewrite forallb_forall in H. specialize (H _ E). cbn [snd] in H.
+  destruct (n =? name)%string; [discriminate|reflexivity].
+Qed.
+
+Lemma names_okb_sound T l :
+  forallb (name_okb T) l = true -> forall val name, In (val, name) l -> name_is T val name.
+Proof.
+  intros H val name Hin. rewrite forallb_forall in H. apply name_okb_sound. apply H. exact Hin.
+Qed.
+
+(* ---------- the machine -> dict maps are total; what holds of every selectable dict ---------- *)
+Lemma machine_key_cases m :
+  (exists n, machine_key m = n /\ In (m, n) E005_e_machine) \/ machine_key m = "<raw>".
+Proof.
+  unfold machine_key. destruct (dict_get E005_e_machine m) as [n|] eqn:E.
+  - left. exists n. split; [reflexivity|]. apply dict_get_in. exact E.
+  - right. reflexivity.
+Qed.
+
+Section sel.
+Variable M : list (string * string).          (* machine name -> dict id *)
+Variable okb : list (Z * string) -> bool.
+Definition sel_key_okb (n : string) : bool :=
+  match assoc_s M n with
+  | Some id => match assoc_s gen_enum_tables id with Some T => okb T | None => false end
+  | None => false
+  end.
+Definition sel_okb : bool := forallb (fun kn => sel_key_okb (snd kn)) ((0, "<raw>") :: E005_e_machine).
+Lemma sel_ok : sel_okb = true ->
+  forall m, exists T, table_of_id (assoc_s M (machine_key m)) = Ok T /\ okb T = true.
+Proof.
+  intros H m. unfold sel_okb in H. rewrite forallb_forall in H.
+  assert (Hk : sel_key_okb (machine_key m) = true).
+  { destruct (machine_key_cases m) as [[n [-> Hin]]| ->].
+    - apply (H (m, n)). right. exact Hin.
+    - apply (H (0, "<raw>")). left. reflexivity. }
+  unfold sel_key_okb in Hk. destruct (assoc_s M (machine_key m)) as [id|]; [|discriminate].
+  cbn [table_of_id]. destruct (assoc_s gen_enum_tables id) as [T|]; [|discriminate].
+  exists T. split; [reflexivity|exact Hk].
+Qed.
+End sel.
+
+(* segment types and section types: every machine's dict has the gABI numbers *)
+Lemma ptab_ok : forall m, exists T,
+  table_of_id (assoc_s gen_p_type_table_of_machine (machine_key m)) = Ok T /\
+  forallb (name_okb T) spec_pt_names = true.
+Proof. apply sel_ok. vm_compute. reflexivity. Qed.
+
+Lemma stab_ok : forall m, exists T,
+  table_of_id (assoc_s gen_sh_type_table_of_machine (machine_key m)) = Ok T /\
+  forallb (name_okb T) spec_sht_names = true.
+Proof. apply sel_ok. vm_compute. reflexivity. Qed.
+
+(* ---------- which d_tag dict: the code's choice is the standard's ---------- *)
+Definition rep_machine (k : dtab_kind) : Z := match k with KMips => 8 | KAarch64 => 183 | _ => 0 end.
+Definition rep_osabi (k : dtab_kind) : Z := match k with KSolaris => 6 | _ => 0 end.
+Definition opt_eqb (a b : option string) : bool :=
+  match a, b with Some x, Some y => (x =? y)%string | None, None => true | _, _ => false end.
+Lemma opt_eqb_eq a b : opt_eqb a b = true -> a = b.
+Proof.
+  destruct a as [x|], b as [y|]; cbn; intros H; try discriminate; [|reflexivity].
+  apply String.eqb_eq in H. congruence.
+Qed.
+Definition dsel (sol : bool) (n : string) : option string :=
+  if sol then assoc_s gen_d_tag_table_of_machine_solaris n else assoc_s gen_d_tag_table_of_machine n.
+Definition kind_of (m : Z) (sol : bool) : dtab_kind :=
+  if (m =? 8) || (m =? 10) then KMips else if m =? 183 then KAarch64 else if sol then KSolaris else KCommon.
+Definition dsel_okb (sol : bool) (kn : Z * string) : bool :=
+  let k := kind_of (fst kn) sol in
+  opt_eqb (dsel sol (snd kn)) (dtab_id (rep_machine k) (rep_osabi k)).
+
+Lemma osabi_solaris o : (osabi_key o =? "ELFOSABI_SOLARIS")%string = (o =? 6).
+Proof.
+  assert (H : name_is E003_EI_OSABI 6 "ELFOSABI_SOLARIS") by (apply name_okb_sound; vm_compute; reflexivity).
+  specialize (H o). unfold osabi_key. unfold dec_enum in H.
+  destruct (dict_get E003_EI_OSABI o) as [n|]; cbn [is_name] in H; [exact H|].
+  rewrite <- H. reflexivity.
+Qed.
+
+Lemma dtab_id_kind m o :
+  dtab_id m o = let k := spec_dtab_kind m o in dtab_id (rep_machine k) (rep_osabi k).
+Proof.
+  assert (Hall : forall sol, forallb (dsel_okb sol) E005_e_machine = true)
+    by (intros [|]; vm_compute; reflexivity).
+  assert (Hraw : forall sol, dsel sol "<raw>" = dtab_id (rep_machine (if sol then KSolaris else KCommon))
+                                                        (rep_osabi (if sol then KSolaris else KCommon)))
+    by (intros [|]; vm_compute; reflexivity).
+  assert (Hd : dtab_id m o = dsel (o =? 6) (machine_key m)).
+  { unfold dtab_id, dsel. rewrite osabi_solaris. reflexivity. }
+  assert (Hk : spec_dtab_kind m o = kind_of m (o =? 6)) by reflexivity.
+  cbv zeta. rewrite Hk, Hd.
+  destruct (machine_key_cases m) as [[n [-> Hin]]|Hr].
+  - specialize (Hall (o =? 6)). rewrite forallb_forall in Hall. specialize (Hall _ Hin).
+    unfold dsel_okb in Hall. cbn [fst snd] in Hall. apply opt_eqb_eq in Hall. exact Hall.
+  - rewrite Hr, Hraw. unfold machine_key in Hr.
+    assert (Hm : ((m =? 8) || (m =? 10)) = false /\ (m =? 183) = false).
+    { destruct (dict_get E005_e_machine m) as [n|] eqn:E.
+      - exfalso. apply dict_get_in in E. subst n.
+        assert (Hno : forallb (fun kn => negb (snd kn =? "<raw>")%string) E005_e_machine = true)
+          by (vm_compute; reflexivity).
+        rewrite forallb_forall in Hno. specialize (Hno _ E). discriminate.
+      - split.
+        + destruct (Z.eqb_spec m 8) as [->|]; [vm_compute in E; discriminate|].
+          destruct (Z.eqb_spec m 10) as [->|]; [vm_compute in E; discriminate|]. reflexivity.
+        + destruct (Z.eqb_spec m 183) as [->|]; [vm_compute in E; discriminate|]. reflexivity. }
+    destruct Hm as [Hm1 Hm2]. unfold kind_of. rewrite Hm1, Hm2. reflexivity.
+Qed.
+
+(* the dict ELFStructs._create_dyn builds is the standard's tag set for the platform *)
+Lemma dtab_selection m o : table_of_id (dtab_id m o) = Ok (spec_dtab m o).
+Proof.
+  rewrite dtab_id_kind. unfold spec_dtab. cbv zeta.
+  destruct (spec_dtab_kind m o); vm_compute; reflexivity.
+Qed.
+
+(* in each of the four tag sets the interpreted tags have their standard numbers;
+   DT_SUNW_FILTER exists in the Solaris set only *)
+Definition is_solaris_kind (k : dtab_kind) : bool := match k with KSolaris => true | _ => false end.
+Lemma dtab_names k : forall val name, In (val, name) spec_dt_names -> name_is (table_of_kind k) val name.
+Proof. apply names_okb_sound. destruct k; vm_compute; reflexivity. Qed.
+Lemma dtab_sunw k :
+  if is_solaris_kind k then name_is (table_of_kind k) DT_SUNW_FILTER "DT_SUNW_FILTER"
+  else name_absent (table_of_kind k) "DT_SUNW_FILTER".
+Proof.
+  destruct k; cbn [is_solaris_kind];
+    first [apply name_okb_sound; vm_compute; reflexivity | apply name_absentb_sound; vm_compute; reflexivity].
+Qed.
+
+(* consequences used by the other proofs *)
+Lemma dt_is m o val name : In (val, name) spec_dt_names ->
+  forall v, is_name (dec_enum (spec_dtab m o) v) name = (v =? val).
+Proof. intros H. apply dtab_names. exact H. Qed.
+
+Lemma handled_is_string_tag m o v :
+  handled_tag (dec_enum (spec_dtab m o) v) = string_tag (spec_is_solaris m o) v.
+Proof.
+  unfold handled_tag, string_tag, spec_is_solaris, spec_dtab.
+  pose proof (dtab_sunw (spec_dtab_kind m o)) as Hs.
+  rewrite (dtab_names _ DT_NEEDED "DT_NEEDED"), (dtab_names _ DT_RPATH "DT_RPATH"),
+          (dtab_names _ DT_RUNPATH "DT_RUNPATH"), (dtab_names _ DT_SONAME "DT_SONAME")
+    by (cbn; tauto).
+  destruct (spec_dtab_kind m o); cbn [is_solaris_kind] in Hs; rewrite Hs; cbn [andb];
+    destruct (v =? DT_NEEDED), (v =? DT_SONAME), (v =? DT_RPATH), (v =? DT_RUNPATH); reflexivity.
+Qed.
